@@ -123,8 +123,8 @@ fn hyphenate_impl(hyphenater: &Hyphenator, list: &[ds::Horizontal]) -> Vec<ds::H
                     out.push(elem.clone());
                 }
                 Action::Abort => {
-                    i += 1;
-                    out.push(elem.clone());
+                    // done1 in Knuth's TeX: the node is left for the outer loop. If it is
+                    // a glue node, the search for the next word starts there.
                     break None;
                 }
             }
